@@ -88,6 +88,11 @@ CHECKS = {
    note=TB + "Not proved: convexity ⇒ a stationary point is the global minimiser (that clause is carried by the per-run stationarity check only); np.linalg.inv/slogdet/eigh are external.",
    technique="Lean 4 proof (descent invariant for any candidate generator, gradient/weight algebra, PD by flooring) + Float twin of objective/gradient on real fits",
    ref="§6 C12"),
+ 'C10': dict(
+   text="Theorems over ℝ: the value the code computes through scipy's shifted logsumexp, exp(−d_ij − logsumexp_{l≠i}(−d_il)), equals the documented softmax exp(−d_ij)/Σ_{l≠i}exp(−d_il) for any shift, rows sum to one, hence the NCA objective is the documented Σ_i Σ_{j≠i,y_j=y_i} p_ij and the MLKR cost the documented leave-one-out regression error; LMNN's documented pull+push objective is ≥ 0; LMNN's acceptance loop, for ANY loss and ANY step map: accepted objectives never increase (induction over iterations incl. the step-halving inner loop), the returned transformation is never worse than the initial one, and with max_iter ≤ 2 (no loop iteration) the result is exactly the initialisation. Tie: the function handed to scipy.optimize.minimize (NCA, MLKR) and LMNN._loss_grad are captured in-process; the model's documented objective (Float twin, k<d included) must equal the captured value at random L and at iterates of real fits; oracle: central finite differences of the documented objective vs the captured gradient, result vs initialisation, LMNN verbose trace non-increasing, target neighbours are the k nearest same-class points, zero-iteration fits return the captured initialisation.",
+   note=TB + "The statement 'the gradient is the derivative of the objective' is checked by finite differences per run, not proved (HasFDerivAt statements are a stretch item); L-BFGS-B never returning a point worse than x0 is SciPy behaviour, checked per fit.",
+   technique="Lean 4 proof (softmax/logsumexp identity, abstract acceptance-loop monotonicity) + Float twin of the documented objectives vs captured optimiser inputs",
+   ref="§6 C10"),
 }
 
 NOT_YET = {}
